@@ -33,7 +33,7 @@ from .. import translate as T
 from . import _an
 
 PROP = "C20"
-GEN_REGIONS = ["Attrs", "ResultQueries", "EntryPoints", "GlobalState"]
+GEN_REGIONS = ["Attrs", "ResultQueries", "EntryPoints", "GlobalState", "ResultPurity"]
 THEOREMS = {
     "SpecKitV.Props.AttrsA": ["psd_alias", "asd_sq", "ps_def", "csd_alias", "cs_def", "tf_alias", "cf_def", "cf_db_def", "deg_rad",
                               "cf_rad_def", "Gyx_conj", "Hyx_conj", "none_table_cross", "none_table_auto"],
@@ -61,6 +61,13 @@ THEOREMS = {
     # no state outlives a call in the files this property is anchored in (no module/class-level containers, memoisers, mutable defaults) and the
     # decorators are exactly the audited ones (region GlobalState, re-scanned from the current source each run)
     "SpecKitV.Props.GlobalStateGen": ["GlobalStateGen.gen_globalState_analysis"],
+    # the buffer effects of EVERY method of SpectrumResult (Gen/ResultPurity, regenerated each run; reasoned about, never executed): no method
+    # writes in place an array a `_data` / `_cache` slot holds (or a caller argument), none but the constructor binds a foreign slot
+    "SpecKitV.Props.ResultPurityGen": [
+        "RPSim.rel_step", "RPSim.rel_foldl", "cRun_clean_of_clean", "gen_result_methods_write_no_cached_array", "gen_result_ctor_clean",
+        "gen_result_methods_pure", "gen_result_ctor_pure", "session_pure", "gen_session_pure", "gen_result_methods_nontrivial",
+        "c10g_plot_rejected", "c10g_plot_witness", "c09g_arm_rejected", "c20c_get_measurement_rejected", "c20d_arm_rejected",
+        "write_before_store_ok", "write_after_store_rejected", "masked_copy_write_ok", "slice_view_write_rejected"],
 }
 CONTRACTS = ["np.interp(x, xp, fp) for strictly increasing xp is the clamped piecewise-linear interpolant Model.interp (tied by correspondence "
              "on real results: grid points, interior points, both clamps)",
@@ -107,7 +114,23 @@ CONTRACTS = ["np.interp(x, xp, fp) for strictly increasing xp is the clamped pie
              "EP.CallArgs = positional values in order + keyword arguments (explicit ones, then the forwarded **kwargs); SpectrumAnalyzer and the "
              "analyzer's methods are PARAMETERS of the translated wrappers; EP.Sig = parameter names / keyword-only names with default None / **kwargs",
              "EP.amin / EP.amax = int(starts.min()) / int(starts.max()) (ValueError on an empty array); EP.size = starts.size; the module flags "
-             "_CUDA_ENABLED / _NUMBA_ENABLED are parameters of Gen._select_backend; only the CLASS of a raised exception is modelled"]
+             "_CUDA_ENABLED / _NUMBA_ENABLED are parameters of Gen._select_backend; only the CLASS of a raised exception is modelled",
+             # contracts of the region ResultPurity (aliasing rules of vk/regions/result_purity.py; semantics in lean/SpecKitV/Model/ResultPurity.lean;
+             # reasoning only, no driver operations and no differential run)
+             "NumPy aliasing rules assumed by Model.RPurity: arithmetic / comparison operators, the ufuncs and functions of FRESH_FUNCS (np.sqrt, np.abs, "
+             "np.conj, np.divide, np.angle, np.unwrap, np.rad2deg, np.arcsin, np.maximum, np.isfinite, np.interp, np.zeros_like, np.ones_like, ...) "
+             "WITHOUT out= and the methods of FRESH_METHODS (.copy, .astype, ...) return a newly allocated array and write none of their arguments; "
+             "with out=o they write o and return it; v[index array / boolean mask] copies; v[slice / int], v.T, v.real, v.imag, np.real, np.imag are "
+             "views; np.asarray / asanyarray / ascontiguousarray / ravel / reshape / squeeze return their argument's buffer OR a fresh one; "
+             "np.nan_to_num(v, copy=False) works in place, copy=True (the default) allocates; v op= e, v[...] = e, v.sort / fill / resize / put / "
+             "itemset / partition / setflags / byteswap, np.copyto / put / place / putmask write v's buffer",
+             "read-only external consumers (they never write an ndarray handed to them): control.mag2db / db2mag (return a new array), "
+             "scipy.integrate.cumulative_trapezoid (new array), every function of matplotlib.pyplot and every method of a Matplotlib Figure / Axes "
+             "(loglog, semilogx, fill_between, set_ylabel, legend, tight_layout, get_figure, ...), pandas.DataFrame(dict) and DataFrame.set_index",
+             "Python object protocol assumed by Model.RPurity: `self.X` for a public X not set by the constructor returns the object held by (or just "
+             "stored into) the cache slot X; dict / list / set / tuple displays and list() / sorted() / set() / dict() / enumerate() build NEW "
+             "containers whose elements are the given objects (item assignment on such a container binds an element, it writes no array); a loop is "
+             "represented by the passes needed until the set of loop-carried names is stable (later iterations are renamings of the last pass)"]
 ASSUMPTIONS = ["translated each run and proved equal to the specification (Props/EntryPointsGen): SpectrumResult.__init__ (hypothesis: the keys of the "
                "results dictionary are distinct — true of every dict; `none` = raises for inputs inside EP.modelled), __len__, lpsd / compute_spectrum / "
                "compute_single_bin as call forwarding over abstract callables, core._select_backend, core._check_starts_bounds",
